@@ -283,6 +283,10 @@ func (fr *frame) loopHead(l *Loop, entry *state, phiIn map[*ssa.Phi]T) *state {
 		}
 	}
 	// 3. assume invariants
+	if fr.loopHeadState == nil {
+		fr.loopHeadState = map[*Loop]*state{}
+	}
+	fr.loopHeadState[l] = st.clone()
 	fr.loopMeasure[l] = ""
 	if lc != nil {
 		env := fr.specEnv(st, nil)
@@ -347,6 +351,36 @@ func (fr *frame) backEdge(from, header *ssa.BasicBlock, st *state) {
 		if o := fr.obligeHere("invariant.preserve", invLabel(lname, inv, i), est, g, fmt.Sprintf("%s:%d", inv.File, inv.Line)); o != nil {
 			o.props = inv.Props
 			o.clause = inv
+		}
+	}
+	if len(lc.Steps) > 0 && fr.loopHeadState[l] != nil {
+		// two-state clauses: the end of this iteration against its own loop-head state
+		senv := fr.specEnv(est, nil)
+		senv.phiOverride = over
+		senv.atBlock = from
+		senv.atBlockEnd = true
+		penv := fr.specEnv(fr.loopHeadState[l], nil)
+		penv.atBlock = header
+		senv.prevEnv = penv
+		for i, sc := range lc.Steps {
+			lab := sc.Label
+			if lab == "" {
+				lab = fmt.Sprintf("step%d", i+1)
+			}
+			g, ok := tryEvalBool(senv, sc.E)
+			if !ok {
+				// a back edge where a local of "A ==> B" is not in scope (a "continue" before it is defined):
+				// the antecedent must be false there
+				imp, isImp := sc.E.(*EBinary)
+				if !isImp || imp.Op != "==>" {
+					stale("step clause %s mentions a local that is not in scope at some back edge and is not an implication", lab)
+				}
+				g = not(senv.evalBool(imp.X))
+			}
+			if o := fr.obligeHere("loop.step", lname+"."+lab, est, g, fmt.Sprintf("%s:%d", sc.File, sc.Line)); o != nil {
+				o.props = sc.Props
+				o.clause = sc
+			}
 		}
 	}
 	if lc.Decreases != nil && fr.loopMeasure[l] != "" {
